@@ -36,6 +36,11 @@ func genC07(t *rapid.T) c07Case {
 			c.Cfg.LongWindow = 1
 		}
 	}
+	if c.Cfg.Algo == "aimd" && rapid.IntRange(0, 7).Draw(t, "aimdAtInt32") == 0 {
+		// AIMD has no ceiling of its own: the last steps below 2^31 (the end of the in-flight domain)
+		c.Cfg.Initial = math.MaxInt32 - rapid.IntRange(0, 40).Draw(t, "belowMaxInt32")
+		c.Cfg.IncreaseBy = rapid.SampledFrom([]int{1, 1, 2, 7}).Draw(t, "incrAtInt32")
+	}
 	if c.Cfg.Algo == "vegas" && rapid.IntRange(0, 2).Draw(t, "customPolicy") == 0 {
 		// caller-supplied policy functions (documented options). Growth at the baseline only needs a threshold >= 1
 		// (no queue counts as "no queuing") and a beta >= 1 (the aggressive step); alpha, increase and decrease are free.
@@ -165,6 +170,18 @@ func runC07(_ *testing.T, c c07Case) kit.Outcome {
 	case "aimd":
 		for i := 0; i < c.AIMDN; i++ {
 			prev := b.Outer.EstimatedLimit()
+			if prev > math.MaxInt32-2 {
+				// the in-flight domain ends at 2^31-1: beyond it no sample can be saturated any more. The last steps up
+				// to that point are taken with in-flight exactly at the limit.
+				if prev > math.MaxInt32 {
+					break
+				}
+				b.Outer.OnSample(0, c.RunRTT, prev, false)
+				if cur := b.Outer.EstimatedLimit(); cur != prev+c.Cfg.IncreaseBy {
+					return kit.Viol("aimd:increase", "saturated drop-free sample at limit %d (in-flight %d): got %d want +%d", prev, prev, cur, c.Cfg.IncreaseBy)
+				}
+				continue
+			}
 			b.Outer.OnSample(0, c.RunRTT, prev+i%3, false) // in-flight >= limit
 			if cur := b.Outer.EstimatedLimit(); cur != prev+c.Cfg.IncreaseBy {
 				return kit.Viol("aimd:increase", "saturated drop-free sample at limit %d: got %d want +%d", prev, cur, c.Cfg.IncreaseBy)
